@@ -1,4 +1,5 @@
 import PGA.Proofs.Net
+import Mathlib.Data.Set.Finite.Basic
 /-!
 # C17 — a generated reaction network is the duplicate-free closure of its seeds
 
@@ -103,13 +104,48 @@ theorem C17_generates_closure (fuel : Nat) (seeds : List α) (rules : List (Rule
   obtain ⟨res, h⟩ := C17_terminates fuel seeds rules hU hnd hs hr C hC hf
   exact ⟨res, h, C17_is_closure fuel seeds rules hU hnd res h⟩
 
-/-- the iteration count is the size of the closure: the returned list itself is a finite closed list containing the
-seeds, so `res.length` fuel is enough to reproduce it, and every larger fuel gives the same list. -/
+/-- **T5, as the property words it**: if the set of species obtainable from the seeds is finite, generation
+terminates (for some fuel, hence for every larger one) and returns exactly that set, each species once. -/
+theorem C17_terminates_of_finite (seeds : List α) (rules : List (Rule α)) (hU : Unary rules) (hnd : seeds.Nodup)
+    (hs : seeds ≠ []) (hr : rules ≠ []) (hfin : {x | ∃ s ∈ seeds, Reach rules s x}.Finite) :
+    ∃ fuel res, generate fuel seeds rules = .ok res ∧ IsClosureOf rules seeds res := by
+  classical
+  let C := hfin.toFinset.toList
+  have hmem : ∀ x, x ∈ C ↔ ∃ s ∈ seeds, Reach rules s x := by
+    intro x; simp [C]
+  have hC : FiniteClosure rules seeds C := by
+    refine ⟨fun s hs => (hmem s).mpr ⟨s, hs, Relation.ReflTransGen.refl⟩, ?_⟩
+    intro a b ha hab
+    obtain ⟨s, hs, hsa⟩ := (hmem a).mp ha
+    exact (hmem b).mpr ⟨s, hs, Relation.ReflTransGen.tail hsa hab⟩
+  exact ⟨C.length, C17_generates_closure C.length seeds rules hU hnd hs hr C hC (le_refl _)⟩
+
+/-- the duplicate elimination inside one product list (lines 130-139) is redundant after the repair: pushing the
+products with or without it gives the same `unprocessed` list (so deleting that block is behaviour-preserving). -/
+theorem C17_inner_dedup_redundant (processed products unprocessed : List α) :
+    pushNew processed (dedup products) unprocessed = pushNew processed products unprocessed :=
+  pushNew_dedup processed products unprocessed
+
+/-- more fuel never changes a returned list. -/
 theorem C17_fuel_irrelevant (f g : Nat) (hfg : f ≤ g) (seeds : List α) (rules : List (Rule α)) (res : List α)
     (h : generate f seeds rules = .ok res) : generate g seeds rules = .ok res := by
   obtain ⟨hs, hr⟩ := generate_ok_ne f seeds rules res h
   rw [generate_eq_loop _ seeds rules hs hr] at h ⊢
   exact loopWith_fuel_mono pushNew rules f g hfg seeds [] res h
+
+/-- the iteration count is the size of the closure: a returned list is reproduced with fuel equal to its own length
+(one loop iteration per listed species). -/
+theorem C17_fuel_exact (fuel : Nat) (seeds : List α) (rules : List (Rule α)) (hU : Unary rules) (hnd : seeds.Nodup)
+    (res : List α) (h : generate fuel seeds rules = .ok res) : generate res.length seeds rules = .ok res := by
+  obtain ⟨hs, hr⟩ := generate_ok_ne fuel seeds rules res h
+  have hC : FiniteClosure rules seeds res := ⟨C17_seeds_in fuel seeds rules hU res h, C17_closed fuel seeds rules hU res h⟩
+  obtain ⟨res', h'⟩ := C17_terminates res.length seeds rules hU hnd hs hr res hC (le_refl _)
+  rcases Nat.le_total res.length fuel with hle | hle
+  · have := C17_fuel_irrelevant res.length fuel hle seeds rules res' h'
+    rw [h] at this
+    cases this
+    exact h'
+  · exact C17_fuel_irrelevant fuel res.length hle seeds rules res h
 
 /-- error clause: no seed or no rule is `IndexError`. -/
 theorem C17_empty_error (fuel : Nat) (seeds : List α) (rules : List (Rule α)) (h : seeds = [] ∨ rules = []) :
